@@ -1,7 +1,7 @@
 (* Property C10 (PARTIAL) — theorem statements only, each closed by `exact` and followed by Print Assumptions. *)
 From Coq Require Import List String NArith ZArith Bool Permutation.
 From C10 Require Import Model Sorted Messages Dag GlobalsTable Statement.
-From Gen Require Import Globals.
+From Gen Require Import Globals SortedSites.
 Import ListNotations.
 
 (* ---- (b) sorted choke points: any two enumerations of the same dict / set give the same bytes ---- *)
@@ -24,15 +24,6 @@ Theorem serialize_perm_invariant :
     symtab_write V write_str write_int write_value no_serialize builtins_name tag_dict items'.
 Proof. exact symtab_write_perm. Qed.
 Print Assumptions serialize_perm_invariant.
-
-(* types.write_type_map *)
-Theorem type_map_perm_invariant :
-  forall V write_str write_int write_value tag_dict (items items' : list (name * V)),
-    Permutation items items' -> NoDup (map fst items) ->
-    type_map_write V write_str write_int write_value tag_dict items =
-    type_map_write V write_str write_int write_value tag_dict items'.
-Proof. exact type_map_write_perm. Qed.
-Print Assumptions type_map_perm_invariant.
 
 (* write_str_list(data, sorted(S)) for the str sets: future_import_flags, slots, immutable, required_keys,
    readonly_keys, scc.mod_ids, unused-ignore codes *)
@@ -67,13 +58,22 @@ Theorem order_ascc_perm_invariant :
 Proof. exact order_ascc_perm. Qed.
 Print Assumptions order_ascc_perm_invariant.
 
-(* build.deps_to_json writes list(<set>) WITHOUT sorting: Statement.deps_json_enumeration_independent is false *)
-Theorem deps_to_json_refuted :
-  exists (enum enum' : list name), Permutation enum enum' /\ NoDup enum /\
-    deps_targets_write (fun s => s) (fun n => [N.of_nat n]) enum <>
-    deps_targets_write (fun s => s) (fun n => [N.of_nat n]) enum'.
-Proof. exact deps_targets_write_refuted. Qed.
-Print Assumptions deps_to_json_refuted.
+(* build.deps_to_json, with the flag regenerated from the current source (true since fix 6f793e2: sorted(v)) *)
+Theorem deps_to_json_perm_invariant : deps_json_enumeration_independent deps_to_json_sorted.
+Proof. exact deps_targets_write_sorted_perm. Qed.
+Print Assumptions deps_to_json_perm_invariant.
+
+(* why the flag matters: the unsorted variant (the code before the fix) is order dependent *)
+Theorem deps_to_json_unsorted_refuted : ~ deps_json_enumeration_independent false.
+Proof.
+  intro H. destruct deps_targets_write_unsorted_refuted as [e [e' [P [ND Hne]]]]. exact (Hne (H _ _ e e' P ND)).
+Qed.
+Print Assumptions deps_to_json_unsorted_refuted.
+
+(* every modelled choke point is still written the way the model assumes (regenerated syntactic table) *)
+Theorem every_choke_point_still_sorted : forall site b, In (site, b) sorted_sites -> b = true.
+Proof. exact sites_table. Qed.
+Print Assumptions every_choke_point_still_sorted.
 
 (* Errors.sort_messages: real key = (line, column), then priority inside equal (position, code); stable.
    PARTIAL: invariant exactly when the (line, column) keys are pairwise distinct within one import context *)
@@ -149,5 +149,5 @@ Proof.
   - intros x y [Hx|[Hx|[]]] [Hy|[Hy|[]]]; subst; reflexivity.
   - repeat constructor; simpl; intuition discriminate.
 Qed.
-Example ex_table_nonempty : List.length globals > 40 /\ List.length reset_set > 10.
-Proof. split; vm_compute; repeat constructor. Qed.
+Example ex_table_nonempty : List.length globals > 300 /\ List.length reset_set > 10 /\ List.length sorted_sites > 10.
+Proof. repeat split; vm_compute; apply PeanoNat.Nat.leb_le; reflexivity. Qed.
